@@ -1,3 +1,113 @@
-"""Kani harness runner (filled in below)."""
+"""Kani harness runner.
+
+The harness files live in /verif/kani/<m>.rs and are compiled into the real
+crate through the cfg(kani) hooks (child modules `verif_kani`).  A run copies
+/repo's working tree to a scratch directory (removed afterwards), keeps the
+dependency build in /verif/.cache/kani-target, and runs `cargo kani` once with
+all requested harnesses.
+"""
+import json
+import os
+import re
+import shutil
+import subprocess
+import tempfile
+import time
+
+
+def _copy_repo(repo, dst):
+    def ig(d, names):
+        return [n for n in names if n in ("target", ".git")]
+    shutil.copytree(repo, dst, ignore=ig, symlinks=True)
+
+
 def run(repo, verif, prop, kcfg, tier, outdir):
-    return {"cmds": [], "complete": [], "bounded": [], "undecided": [], "violations": [], "trusted": []}
+    res = {"cmds": [], "complete": [], "bounded": [], "undecided": [], "violations": [], "trusted": []}
+    hs = [h for h in kcfg.get("harnesses", []) if tier == "thorough" or h.get("tier", "quick") == "quick"]
+    if not hs:
+        return res
+    base = tempfile.mkdtemp(prefix="skv-kani.", dir="/var/tmp")
+    try:
+        scratch = os.path.join(base, "repo")
+        _copy_repo(repo, scratch)
+        tgt = os.path.join(os.environ.get("VERIF_CACHE", os.path.join(verif, ".cache")), "kani-target")
+        os.makedirs(tgt, exist_ok=True)
+        env = dict(os.environ, CARGO_NET_OFFLINE="true", SURREALKV_VERIF_DIR=verif, CARGO_TARGET_DIR=tgt)
+        cmd = ["cargo", "kani", "-Z", "stubbing", "--output-format", "terse", "-j", str(min(8, len(hs)))]
+        for h in hs:
+            cmd += ["--harness", h["name"]]
+        t0 = time.time()
+        try:
+            r = subprocess.run(cmd, cwd=scratch, env=env, capture_output=True, text=True, timeout=int(kcfg.get("timeout_s", 1500)))
+            out = r.stdout + "\n" + r.stderr
+            rc = r.returncode
+        except subprocess.TimeoutExpired as e:
+            out = (e.stdout or b"").decode(errors="replace") if isinstance(e.stdout, bytes) else (e.stdout or "")
+            rc = -9
+            res["undecided"].append("kani: timeout after %ss" % kcfg.get("timeout_s", 1500))
+        wall = time.time() - t0
+        res["cmds"].append("(scratch copy of /repo) SURREALKV_VERIF_DIR=%s %s" % (verif, " ".join(cmd)))
+        open(os.path.join(outdir, "kani.log"), "w").write(out)
+        # parse: "Thread N: Checking harness X..." then later "Thread N: " + result block (with -j), or
+        # "Checking harness X..." directly followed by its result block
+        seen = {}
+        cur = {}
+        blocks = {}
+        active = None
+        for ln in out.split("\n"):
+            m = re.match(r"^(?:Thread (\d+): )?Checking harness (\S+?)\.\.\.", ln)
+            if m:
+                t = m.group(1) or "0"
+                cur[t] = m.group(2)
+                blocks.setdefault(m.group(2), [])
+                active = m.group(2) if m.group(1) is None else None
+                continue
+            m = re.match(r"^Thread (\d+): ?$", ln)
+            if m:
+                active = cur.get(m.group(1))
+                continue
+            if ln.startswith("Manual Harness Summary") or ln.startswith("Complete - "):
+                active = None
+            if active:
+                blocks[active].append(ln)
+        for name, lines in blocks.items():
+            sec = "\n".join(lines)
+            ok = "VERIFICATION:- SUCCESSFUL" in sec
+            failed = "VERIFICATION:- FAILED" in sec
+            m = re.search(r"\*\* (\d+) of (\d+) failed", sec)
+            nfail, ntot = (int(m.group(1)), int(m.group(2))) if m else (0, 0)
+            tm = re.search(r"Verification Time: ([\d.]+)s", sec)
+            cm = re.search(r"\*\* (\d+) of (\d+) cover properties satisfied", sec)
+            uncov = (int(cm.group(2)) - int(cm.group(1))) if cm else 0
+            failed_checks = re.findall(r"(?m)^Failed Checks: (.*)$", sec)
+            unwind = any("unwinding assertion" in fc for fc in failed_checks)
+            seen[name] = {"ok": ok, "failed": failed, "nfail": nfail, "ntot": ntot, "time": float(tm.group(1)) if tm else 0.0,
+                          "uncovered": uncov, "failed_checks": failed_checks, "unwind": unwind, "text": sec[-3000:]}
+        for h in hs:
+            short = h["name"]
+            key = [k for k in seen if k.endswith(short) or k.split("::")[-1] == short.split("::")[-1]]
+            if not key:
+                res["undecided"].append("kani: harness %s produced no result (rc=%s; see out/%s/kani.log)" % (short, rc, prop))
+                continue
+            s = seen[key[0]]
+            ent = {"harness": key[0], "kind": h["kind"], "bound": h.get("bound", "none (loop-free, full input domain)" if h["kind"] == "complete" else "?"),
+                   "checks": s["ntot"], "failed": s["nfail"], "time_s": s["time"], "what": h.get("what", "")}
+            if s["ok"] and s["ntot"] > 0:
+                if s["uncovered"]:
+                    res["undecided"].append("kani: harness %s has unreachable cover (vacuous assumption)" % short)
+                (res["complete"] if h["kind"] == "complete" else res["bounded"]).append(ent)
+            elif s["failed"]:
+                if s["unwind"] and all("unwinding" in fc for fc in s["failed_checks"]):
+                    res["undecided"].append("kani: harness %s: unwinding bound too small" % short)
+                    continue
+                res["violations"].append({"obligation": "kani::%s::%s" % (short, (s["failed_checks"] or ["assertion"])[0][:80]), "kind": "kani", "function": short, "label": None,
+                                          "clause": h.get("what", ""), "message": "Kani: %d of %d checks failed: %s" % (s["nfail"], s["ntot"], "; ".join(s["failed_checks"])[:300]),
+                                          "rendered": s["text"], "site_text": "", "unit": "kani"})
+                (res["complete"] if h["kind"] == "complete" else res["bounded"]).append(ent)
+            else:
+                res["undecided"].append("kani: harness %s neither succeeded nor failed (ICE / OOM / compile error; see kani.log)" % short)
+        res["trusted"].append("kani/cbmc: bit-precise model of the compiled MIR; std library code is verified as compiled, allocator and panics per Kani's model")
+        res["wall"] = wall
+    finally:
+        shutil.rmtree(base, ignore_errors=True)
+    return res
